@@ -13,11 +13,15 @@ user's names and are not counted) and `helpersProvided` (what the same output de
 and `used ⊆ provided`, for every `ParsedData`, every configuration and every printer state left
 behind by the files generated earlier in the run (that covers multi-file mode).
 
-* Swift, Go, TypeScript, Scala: the statement holds (`C12_swift`, `C12_go`, `C12_typescript`,
-  `C12_scala`; Scala since the `fix:` commit c7871b1 made the unsigned-integer scan recursive).
-* Python, Kotlin: it does not (`C12_not_full`); the failing inputs are characterised exactly
-  (`Known_python`, `Known_kotlin`) and the statement is proved for all others.  (Python's generic
-  aliases are no longer among them since the `fix:` commit 614135b.)
+* Swift, Go, TypeScript, Scala, Python: the statement holds (`C12_swift`, `C12_go`,
+  `C12_typescript`, `C12_scala`, `C12_python`; Scala since the `fix:` commit c7871b1 made the
+  unsigned-integer scan recursive; Python since the `fix:` commits 614135b (generic aliases),
+  ab2f0e6 (`py-default-custom-fns`) and 062e77e (`py-mapped-datetime-import`): the class
+  `Known_python` of the previous rounds is empty and gone).
+* Kotlin: it does not (`C12_not_full`, `kotlin_not_full`); the failing inputs are characterised
+  exactly (`Known_kotlin`: no package configured) and the statement is proved for all others —
+  `C12_full` fails for Kotlin without a package and for nothing else (`C12_all_but_kotlin`,
+  `C12_full_iff_kotlin`).
 -/
 namespace TsV.C12
 open TsV TsV.C12L
@@ -306,96 +310,34 @@ def Python_full : Prop :=
     (∃ body, text = Lang.Python.beginFile cfg ++ Lang.Python.writeAllImports st ++ Lang.Python.writeCustomFns st ++ body) ∧
     ∀ n ∈ Python.used E cfg d st, Python.Provides st n
 
-/-- **Known (Python)**: one of the names the printer does not account for (`C12L.Python.risky`) is
-not provided by anything else in the run either -/
-def Known_python (cfg : Lang.Python.Cfg) (d : ParsedData) (st : Lang.Python.St) : Prop :=
-  ∃ n ∈ Python.risky cfg d st, ¬ Python.Provides st n
+/-- **C12 for Python** (a full theorem since the `fix:` commits ab2f0e6 and 062e77e): every import,
+every `TypeVar` and every translation function the text of a file uses — at any depth and position,
+for every type mapping, whatever printer state the earlier files of the run left behind — is in
+the state the header and the function block of the same file are written from -/
+theorem C12_python : Python_full := by
+  intro E cfg d st0 text st h
+  obtain ⟨_, hused, hbody⟩ := Python.generate_spec E cfg d st0 text st h
+  exact ⟨hbody, hused⟩
 
-instance (cfg : Lang.Python.Cfg) (d : ParsedData) (st : Lang.Python.St) : Decidable (Known_python cfg d st) := by
-  unfold Known_python; infer_instance
+/-- … and the printer state only grows along a run -/
+theorem C12_python_mono (E : Ext) (cfg : Lang.Python.Cfg) (d : ParsedData) (st0 : Lang.Python.St) (text : Str)
+    (st : Lang.Python.St) (h : Lang.Python.generate E cfg d st0 = .ok (text, st)) : Python.Mono st0 st :=
+  (Python.generate_spec E cfg d st0 text st h).1
 
-/-- the two kinds of names in `risky` (the former third kind, `py-alias-typevar` — a generic
-parameter of a type alias — is repaired by the `fix:` commit 614135b and now part of `safe`):
-* `py-default-custom` — the translation functions of a `#[serde(default)]` non-`Option` field whose
-  python type is `bytes` / `datetime` (registered as `Optional[..]`, for which none exist);
-* `py-datetime-import` — the name `datetime` inside the `datetime` translation functions. -/
-theorem known_python_kinds (cfg : Lang.Python.Cfg) (d : ParsedData) (st : Lang.Python.St) (n : Python.Need)
-    (hn : n ∈ Python.risky cfg d st) :
-    (∃ gens f t, Python.nod f = true ∧ Python.customTy cfg gens f = some t ∧ n = .fns t) ∨
-    (n = Python.impDatetime ∧ s%"datetime" ∈ st.customJson) := by
-  have hfield : ∀ gens (f : RustField), n ∈ Python.fieldRisky cfg gens f →
-      ∃ gens f t, Python.nod f = true ∧ Python.customTy cfg gens f = some t ∧ n = .fns t := by
-    intro gens f h
-    unfold Python.fieldRisky at h
-    cases hc : Python.customTy cfg gens f with
-    | none => rw [hc] at h; simp at h
-    | some t =>
-      rw [hc] at h
-      simp only at h
-      split at h
-      · rename_i hn'
-        simp only [List.mem_singleton] at h
-        exact ⟨gens, f, t, hn', hc, h⟩
-      · simp at h
-  have hstruct : ∀ rs : RustStruct, n ∈ Python.structRisky cfg rs →
-      ∃ gens f t, Python.nod f = true ∧ Python.customTy cfg gens f = some t ∧ n = .fns t := by
-    intro rs h
-    simp only [Python.structRisky, List.mem_flatMap] at h
-    obtain ⟨f, _, hf⟩ := h
-    exact hfield _ f hf
-  simp only [Python.risky, List.mem_append, List.mem_flatMap] at hn
-  rcases hn with ⟨it, hit, h⟩ | h
-  · cases it with
-    | struct rs => exact Or.inl (hstruct rs h)
-    | «enum» e =>
-      simp only [Python.itemRisky, Python.enumRisky, Python.innerRisky, List.mem_flatMap] at h
-      obtain ⟨p, _, hp⟩ := h
-      exact Or.inl (hstruct _ hp)
-    | alias a => simp [Python.itemRisky] at h
-    | const c => simp [Python.itemRisky] at h
-  · split at h
-    · rename_i hd
-      simp only [List.mem_singleton] at h
-      exact Or.inr ⟨h, hd⟩
-    · simp at h
-
-/-- the statement holds exactly outside `Known_python` -/
-theorem C12_python_exact (E : Ext) (cfg : Lang.Python.Cfg) (d : ParsedData) (st0 : Lang.Python.St) (text : Str)
-    (st : Lang.Python.St) (h : Lang.Python.generate E cfg d st0 = .ok (text, st)) :
-    (∀ n ∈ Python.used E cfg d st, Python.Provides st n) ↔ ¬ Known_python cfg d st := by
-  obtain ⟨_, hsafe, _⟩ := Python.generate_spec E cfg d st0 text st h
+/-- the two repaired classes in terms of the names used:
+* `py-default-custom-fns` — a custom-translated field (`bytes` / `datetime`) uses its translation
+  functions whether or not it is a `#[serde(default)]` non-`Option` field (`Python.nod`);
+* `py-mapped-datetime-import` — whenever `datetime` is registered for custom translation the name
+  `datetime` (inside the functions' text) is used.
+Both are members of `Python.used`, so `C12_python` covers them. -/
+theorem python_repaired_kinds (E : Ext) (cfg : Lang.Python.Cfg) :
+    (∀ gens (f : RustField) t, Python.customTy cfg gens f = some t → Python.Need.fns t ∈ Python.fieldSafe E cfg gens f) ∧
+    (∀ d (st : Lang.Python.St), s%"datetime" ∈ st.customJson → Python.impDatetime ∈ Python.used E cfg d st) := by
   constructor
-  · rintro hall ⟨n, hn, hnp⟩
-    exact hnp (hall n (List.mem_append_right _ hn))
-  · intro hk n hn
-    rcases List.mem_append.1 hn with hn | hn
-    · exact hsafe n hn
-    · apply Classical.byContradiction
-      intro hnp
-      exact hk ⟨n, hn, hnp⟩
-
-theorem C12_python_partial (E : Ext) (cfg : Lang.Python.Cfg) (d : ParsedData) (st0 : Lang.Python.St) (text : Str)
-    (st : Lang.Python.St) (h : Lang.Python.generate E cfg d st0 = .ok (text, st)) (hk : ¬ Known_python cfg d st) :
-    (∃ body, text = Lang.Python.beginFile cfg ++ Lang.Python.writeAllImports st ++ Lang.Python.writeCustomFns st ++ body) ∧
-    ∀ n ∈ Python.used E cfg d st, Python.Provides st n :=
-  ⟨(Python.generate_spec E cfg d st0 text st h).2.2, (C12_python_exact E cfg d st0 text st h).2 hk⟩
-
-/-- the part that needs no hypothesis: everything the printer accounts for is provided, at any
-depth and position, whatever state the earlier files of the run left behind -/
-theorem C12_python_safe (E : Ext) (cfg : Lang.Python.Cfg) (d : ParsedData) (st0 : Lang.Python.St) (text : Str)
-    (st : Lang.Python.St) (h : Lang.Python.generate E cfg d st0 = .ok (text, st)) :
-    (∀ n ∈ Python.safe E cfg d, Python.Provides st n) ∧ Python.Mono st0 st :=
-  ⟨(Python.generate_spec E cfg d st0 text st h).2.1, (Python.generate_spec E cfg d st0 text st h).1⟩
-
-/-- the input-level special case: no defaulted non-`Option` custom field, and `datetime` not
-registered for custom translation -/
-theorem C12_python_no_risk (E : Ext) (cfg : Lang.Python.Cfg) (d : ParsedData) (st0 : Lang.Python.St) (text : Str)
-    (st : Lang.Python.St) (h : Lang.Python.generate E cfg d st0 = .ok (text, st))
-    (h1 : (itemsOf d).flatMap (Python.itemRisky cfg) = []) (h2 : s%"datetime" ∉ st.customJson) :
-    ∀ n ∈ Python.used E cfg d st, Python.Provides st n := by
-  apply (C12_python_exact E cfg d st0 text st h).2
-  rintro ⟨n, hn, _⟩
-  simp [Python.risky, h1, h2] at hn
+  · intro gens f t h
+    simp [Python.fieldSafe, h]
+  · intro d st h
+    simp [Python.used, Python.fnsNeeds, h]
 
 /-- the translation functions of a registered type are written before the body -/
 theorem python_fns_written (st : Lang.Python.St) (t : Str) (c : Lang.Python.CustomFns)
@@ -417,33 +359,33 @@ def pyFinal (E : Ext) (cfg : Lang.Python.Cfg) (items : List RustItem) : Option L
   | .ok (_, st) => some st
   | _ => none
 
-/-- `struct S { #[serde(default)] t: OffsetDateTime }`: `parse_rfc3339` / `serialize_datetime_data`
-are named in the `Annotated[..]` of the field, but registered (and so written) for
-`Optional[datetime]`, for which there are none -/
+/-- `struct S { #[serde(default)] t: OffsetDateTime }`, the old witness of `py-default-custom-fns`:
+`parse_rfc3339` / `serialize_datetime_data` are named in the `Annotated[..]` of the field; they used
+to be registered (and so not written) for `Optional[datetime]` -/
 def pyDefaultItem : RustItem := .struct (mkStruct s%"S" [mkField s%"t" (.prim .dateTime) true])
 def pyDefaultWitness : ParsedData := { structs := [mkStruct s%"S" [mkField s%"t" (.prim .dateTime) true]] }
 
-theorem python_not_full : ¬ Python_full := by
-  intro h
+/-- `C12_python` is not vacuous on the old witness: the run succeeds, `datetime` is registered and
+imported, and everything the file uses is provided -/
+example : ∃ text st, Lang.Python.generate exE {} pyDefaultWitness {} = .ok (text, st) ∧
+    st.customJson = [s%"datetime"] ∧ Python.Provides st Python.impDatetime ∧
+    ∀ n ∈ Python.used exE {} pyDefaultWitness st, Python.Provides st n := by
   have ho : Pipeline.generateOrder pyDefaultWitness = some [pyDefaultItem] :=
     topsort_single pyDefaultItem (by decide +kernel)
-  have hw : (pyFinal exE {} [pyDefaultItem]).map (·.customJson) = some [s%"Optional[datetime]"] := by decide +kernel
+  have hw : (pyFinal exE {} [pyDefaultItem]).map
+      (fun st => (st.customJson, decide (Python.Provides (Lang.Python.addDatetimeImport st) Python.impDatetime))) =
+      some ([s%"datetime"], true) := by decide +kernel
   unfold pyFinal at hw
   cases hwi : Lang.Python.writeItems exE {} [pyDefaultItem] {} with
   | ok r =>
     obtain ⟨body, st⟩ := r
     rw [hwi] at hw
-    simp only [Option.map_some, Option.some.injEq] at hw
+    simp only [Option.map_some, Option.some.injEq, Prod.mk.injEq, decide_eq_true_eq] at hw
     have hg : Lang.Python.generate exE {} pyDefaultWitness {} =
-        .ok (Lang.Python.beginFile {} ++ Lang.Python.writeAllImports st ++ Lang.Python.writeCustomFns st ++ body, st) := by
+        .ok (Lang.Python.beginFile {} ++ Lang.Python.writeAllImports (Lang.Python.addDatetimeImport st) ++
+          Lang.Python.writeCustomFns (Lang.Python.addDatetimeImport st) ++ body, Lang.Python.addDatetimeImport st) := by
       simp [Lang.Python.generate, ho, hwi]
-    have := (h exE {} pyDefaultWitness {} _ st hg).2 (.fns s%"datetime") (by
-      apply List.mem_append_right
-      apply List.mem_append_left
-      decide +kernel)
-    simp only [Python.Provides, hw] at this
-    revert this
-    decide +kernel
+    exact ⟨_, _, hg, by rw [Python.addDatetimeImport_customJson]; exact hw.1, hw.2, (C12_python _ _ _ _ _ _ hg).2⟩
   | err e => rw [hwi] at hw; cases hw
   | panic e => rw [hwi] at hw; cases hw
 
@@ -451,7 +393,7 @@ theorem python_not_full : ¬ Python_full := by
 `T` is used by the alias, and now declared (with `TypeVar` imported) -/
 def pyAliasItem : RustItem := .alias (mkAlias s%"G" (.vec (.simple s%"T")) [s%"T"])
 example : Python.itemSafe exE {} pyAliasItem =
-    [.typeVar s%"T", Python.impTypeVar, Python.impList, .typeVar s%"T"] ∧ Python.itemRisky {} pyAliasItem = [] := by
+    [.typeVar s%"T", Python.impTypeVar, Python.impList, .typeVar s%"T"] := by
   decide +kernel
 example : (pyFinal exE {} [pyAliasItem]).map (fun st => (st.typeVars,
     decide (Python.Provides st (.typeVar s%"T") ∧ Python.Provides st Python.impTypeVar))) = some ([s%"T"], true) := by
@@ -459,21 +401,37 @@ example : (pyFinal exE {} [pyAliasItem]).map (fun st => (st.typeVars,
 example : (match Lang.Python.writeItems exE {} [pyAliasItem] {} with | .ok (t, _) => some t | _ => none) =
     some s%"G = List[T]\n\n" := by decide +kernel
 
-/-! the two remaining classes, on their minimal witnesses -/
--- `struct S { #[serde(default)] t: OffsetDateTime }`: `parse_rfc3339` is named, not defined
-example : (pyFinal exE {} [.struct (mkStruct s%"S" [mkField s%"t" (.prim .dateTime) true])]).map
-    (fun st => (decide (Python.Provides st (.fns s%"datetime")), st.customJson)) =
-    some (false, [s%"Optional[datetime]"]) := by decide +kernel
-example : Python.fieldRisky {} [] (mkField s%"t" (.prim .dateTime) true) = [.fns s%"datetime"] := by decide +kernel
--- without the default the functions are registered under their own name
+/-! regression examples: the witnesses of the repaired classes `py-default-custom-fns` and
+`py-mapped-datetime-import` -/
+-- `struct S { #[serde(default)] t: OffsetDateTime }`: `datetime` is registered (was `Optional[datetime]`), so the
+-- functions the field names are provided
+theorem repaired_py_default_custom_fns :
+    (pyFinal exE {} [pyDefaultItem]).map
+      (fun st => (decide (Python.Provides st (.fns s%"datetime")), st.customJson)) = some (true, [s%"datetime"]) ∧
+    Python.fieldSafe exE {} [] (mkField s%"t" (.prim .dateTime) true) =
+      [Python.impDatetime, Python.impOptional, Python.impField, Python.impAnnotated, Python.impBefore, Python.impPlain,
+       .fns s%"datetime"] := by decide +kernel
+-- the same with a mapped `bytes` field: `#[serde(default)] t: Foo`, `Foo -> bytes`
+example : (pyFinal exE { typeMappings := [(s%"Foo", s%"bytes")] }
+      [.struct (mkStruct s%"S" [mkField s%"t" (.simple s%"Foo") true])]).map
+    (fun st => (decide (Python.Provides st (.fns s%"bytes")), st.customJson)) = some (true, [s%"bytes"]) := by decide +kernel
+-- … and the field line still wraps the type: `Annotated[Optional[datetime], BeforeValidator(parse_rfc3339), …]`
+example : (match Lang.Python.fieldFacts exE {} [] (mkField s%"t" (.prim .dateTime) true) {} with
+    | .ok (pf, _) => some pf.ty | _ => none) =
+    some s%"Annotated[Optional[datetime], BeforeValidator(parse_rfc3339), PlainSerializer(serialize_datetime_data)]" := by
+  decide +kernel
+-- without the default nothing has changed
 example : (pyFinal exE {} [.struct (mkStruct s%"S" [mkField s%"t" (.prim .dateTime)])]).map
     (fun st => decide (Python.Provides st (.fns s%"datetime") ∧ Python.Provides st Python.impDatetime)) =
     some true := by decide +kernel
--- `struct S { t: Foo }` with the mapping `Foo -> datetime`: the functions are written, `datetime` is not imported
-example : (pyFinal exE { typeMappings := [(s%"Foo", s%"datetime")] }
+-- `struct S { t: Foo }` with the mapping `Foo -> datetime`: after the items the functions are registered and `datetime`
+-- is not imported; `generate_types` adds the import before the header is written (was missing)
+theorem repaired_py_mapped_datetime_import :
+    (pyFinal exE { typeMappings := [(s%"Foo", s%"datetime")] }
       [.struct (mkStruct s%"S" [mkField s%"t" (.simple s%"Foo")])]).map
-    (fun st => (decide (Python.Provides st (.fns s%"datetime")), decide (Python.Provides st Python.impDatetime))) =
-    some (true, false) := by decide +kernel
+    (fun st => (decide (Python.Provides st (.fns s%"datetime")), decide (Python.Provides st Python.impDatetime),
+      decide (Python.Provides (Lang.Python.addDatetimeImport st) Python.impDatetime))) =
+    some (true, false, true) := by decide +kernel
 -- a mapped `Vec<u8>` with `#[serde(default)]` is fine: `format_special_type` registers `bytes` itself
 example : (pyFinal exE { typeMappings := [(s%"Vec<u8>", s%"bytes")] }
       [.struct (mkStruct s%"S" [mkField s%"t" (.vec (.prim .u8)) true])]).map
@@ -489,24 +447,30 @@ is defined or imported by the same output (Swift in multi-file mode: by the shar
 def C12_full : Prop :=
   Swift_full ∧ Scala_full ∧ Python_full ∧ Go_full ∧ TypeScript_full ∧ Kotlin_full
 
-theorem C12_not_full : ¬ C12_full := fun h => python_not_full h.2.2.1
+theorem C12_not_full : ¬ C12_full := fun h => kotlin_not_full h.2.2.2.2.2
 
-/-- both failing back ends fail independently -/
-theorem C12_not_full_each : ¬ Python_full ∧ ¬ Kotlin_full :=
-  ⟨python_not_full, kotlin_not_full⟩
+/-- five of the six back ends satisfy the statement in full -/
+theorem C12_all_but_kotlin : Swift_full ∧ Scala_full ∧ Python_full ∧ Go_full ∧ TypeScript_full :=
+  ⟨C12_swift, C12_scala, C12_python, C12_go, C12_typescript⟩
 
-/-- **C12 outside the known classes**: Swift, Go, TypeScript and Scala unconditionally; Python and
-Kotlin for every input that is not in `Known_python` / `Known_kotlin` -/
+/-- `C12_full` fails for Kotlin and for nothing else -/
+theorem C12_full_iff_kotlin : C12_full ↔ Kotlin_full :=
+  ⟨fun h => h.2.2.2.2.2, fun h => ⟨C12_swift, C12_scala, C12_python, C12_go, C12_typescript, h⟩⟩
+
+/-- **C12 outside the known class**: Swift, Go, TypeScript, Scala and Python unconditionally; Kotlin
+for every input that is not in `Known_kotlin` (no package configured) -/
 theorem C12_partial :
-    Swift_full ∧ Go_full ∧ TypeScript_full ∧ Scala_full ∧
-    (∀ (E : Ext) (cfg : Lang.Python.Cfg) (d : ParsedData) (st0 : Lang.Python.St) (text : Str) (st : Lang.Python.St),
-      Lang.Python.generate E cfg d st0 = .ok (text, st) → ¬ Known_python cfg d st →
-      ∀ n ∈ Python.used E cfg d st, Python.Provides st n) ∧
+    Swift_full ∧ Go_full ∧ TypeScript_full ∧ Scala_full ∧ Python_full ∧
     (∀ (cfg : Lang.Kotlin.Cfg) (d : ParsedData) (items : List RustItem) (decls : List Lang.Kotlin.KtDecl),
       Pipeline.generateOrder d = some items → Lang.Kotlin.itemsFacts cfg items = .ok decls →
       ¬ Known_kotlin cfg decls → ∀ n ∈ decls.flatMap Kotlin.declUses, n ∈ Kotlin.provided cfg) :=
-  ⟨C12_swift, C12_go, C12_typescript, C12_scala,
-   fun E cfg d st0 text st h hk => (C12_python_partial E cfg d st0 text st h hk).2,
+  ⟨C12_swift, C12_go, C12_typescript, C12_scala, C12_python,
    fun cfg d items decls ho hf hk => C12_kotlin_partial cfg d items decls ho hf hk⟩
+
+/-- `C12_full` fails exactly on the Kotlin inputs of `Known_kotlin`: for every configuration and
+declaration list, the Kotlin clause holds iff the input is outside the class -/
+theorem C12_failures_are_kotlin_without_package (cfg : Lang.Kotlin.Cfg) (decls : List Lang.Kotlin.KtDecl) :
+    (¬ ∀ n ∈ decls.flatMap Kotlin.declUses, n ∈ Kotlin.provided cfg) ↔ Known_kotlin cfg decls := by
+  rw [C12_kotlin_exact]; exact Decidable.not_not
 
 end TsV.C12
